@@ -127,7 +127,9 @@ int main(void) {
             continue;
         }
         if (sscanf(line, "%15s %2047s %lld %lld %lld %lld", tag, path, &rs, &rn, &ms, &mn) != 6) { printf("bad-line\n"); fflush(stdout); continue; }
-        clockbound_err err; memset(&err, 0, sizeof err);
+        /* one error struct for the whole run, as a caller retrying in a loop would use it: a failed
+           open must overwrite every field of it */
+        static clockbound_err err;
         clockbound_ctx *ctx = clockbound_open(path, &err);
         if (!ctx) { printf("K:"); print_err(&err); printf(" N:-\n"); fflush(stdout); continue; }
         printf("K:ok N:");
